@@ -14,6 +14,10 @@ import (
 
 func init() {
 	register(&Property{ID: "C04", Run: runC04, Mutants: []Mutant{
+		{Name: "label search runs outermost-first (depth arithmetic kept)", File: "internal/wat/watutil/wat2wasm_helper.go", Old: "\tfor i := 0; i < len(p.labelScope); i++ {\n\t\tif s := p.labelScope[len(p.labelScope)-i-1]; s == label {\n\t\t\treturn wasm.Index(i)", New: "\tfor i, s := range p.labelScope {\n\t\tif s == label {\n\t\t\treturn wasm.Index(len(p.labelScope) - i - 1)", Expect: "label-resolution :: findLabelIndex"},
+		{Name: "label depth off by one", File: "internal/wat/watutil/wat2wasm_helper.go", Old: "\t\t\treturn wasm.Index(i)\n\t\t}\n\t}\n\tpanic(fmt.Sprintf(\"wat2wasm: unknown label", New: "\t\t\treturn wasm.Index(i + 1)\n\t\t}\n\t}\n\tpanic(fmt.Sprintf(\"wat2wasm: unknown label", Expect: "label-resolution :: findLabelIndex"},
+		{Name: "loop label never popped", File: "internal/wat/watutil/wat2wasm_instruction.go", Old: "\t\tins := i.(ast.Ins_Loop)\n\t\tp.enterLabelScope(ins.Label)\n\t\tdefer p.leaveLabelScope()\n", New: "\t\tins := i.(ast.Ins_Loop)\n\t\tp.enterLabelScope(ins.Label)\n", Expect: "label-resolution :: scope pairing: INS_LOOP"},
+		{Name: "element indices alias one hoisted variable", File: "internal/wat/watutil/wat2wasm.go", Old: "\t\tinitList := []*wasm.Index{}\n\t\tfor _, ident := range x.Values {\n\t\t\tidx := p.findFuncIndex(ident)", New: "\t\tvar idx wasm.Index\n\t\tinitList := []*wasm.Index{}\n\t\tfor _, ident := range x.Values {\n\t\t\tidx = p.findFuncIndex(ident)", Expect: "pointer-aliasing :: internal/wat/watutil.wat2wasmWorker.buildElementSection"},
 		{Name: "i32.div_u arm appends the div_s opcode", File: "internal/wat/watutil/wat2wasm_instruction.go", Old: "wasm.OpcodeI32DivU)", New: "wasm.OpcodeI32DivS)", Expect: "token-opcode :: i32.div_u"},
 		{Name: "memory.fill loses its memory index byte", File: "internal/wat/watutil/wat2wasm_instruction.go", Old: "wasm.OpcodeMiscMemoryFill, 0x00)", New: "wasm.OpcodeMiscMemoryFill)", Expect: "token-opcode :: memory.fill"},
 		{Name: "two token spellings swapped", File: "internal/wat/token/token.go", Old: "INS_I64_SHR_S:           \"i64.shr_s\",", New: "INS_I64_SHR_S:           \"i64.shr_u\",", Expect: "token-"},
@@ -473,6 +477,9 @@ func runC04(c *Ctx) {
 
 	// ---- rule 4: index spaces
 	c04IndexSpaces(c, p, wu)
+	// ---- rule 6: label resolution; rule 7: per-iteration pointers
+	c04LabelScope(c, p, wu)
+	c04PointerAliasing(c, p, wu, p.Pkg("internal/wasm/binary"))
 	_ = token.NoPos
 }
 
